@@ -70,6 +70,12 @@ MODELS = {
 <sensor><jointpos joint="j" delay="0.004" nsample="2"/></sensor>"""
   + _keys(1, 1, 0, 1, 0)
   + "</mujoco>",
+  # more actuators than position / velocity coordinates (nq=1 nv=1 nu=3 na=1): size relations nu > nq, nu > nv, na < nu
+  "servos": """<mujoco><option><flag {flag}/></option><worldbody>
+<body pos="0 0 1"><joint name="j" damping="0.1"/><geom size=".1"/></body></worldbody>
+<actuator><position joint="j" kp="5"/><velocity joint="j" kv="1"/><general joint="j" dyntype="integrator"/></actuator>"""
+  + _keys(1, 1, 1, 3, 0)
+  + "</mujoco>",
 }
 
 # integration state: reference = mujoco.mj_resetDataKeyframe
@@ -446,7 +452,7 @@ def unit_scalar_reject(ctx):
 
 
 def main(tier, seed, only=None):
-  units = [unit_model("actdim", "array"), unit_model("delay", "array"), unit_model("actdim", "array", symtab=True), unit_model("actdim", 0), unit_model("actdim", 2), ("scalar-reject", unit_scalar_reject)]
+  units = [unit_model("actdim", "array"), unit_model("delay", "array"), unit_model("servos", "array"), unit_model("servos", 1), unit_model("actdim", "array", symtab=True), unit_model("actdim", 0), unit_model("actdim", 2), ("scalar-reject", unit_scalar_reject)]
   if tier == "thorough":
     units += [unit_model("actdim", "array", sleep=True), unit_model("delay", 1), unit_model("actdim", 1), unit_model("actdim", "array", nworld=3), unit_model("delay", "array", symtab=True, nworld=3)]
   if only:
